@@ -85,7 +85,9 @@ def judge_recovery(c: Campaign, spec: dict[str, Any], cs: dict[str, Any], rec: d
             if g > r + allowed_list.count(k):
                 viol.append(("extra-execution", f"{k}: executed {g}x, uninterrupted run {r}x (in-flight task at the crash: {allowed})"))
     # upstream data every stage saw (set comparison: a legitimate re-execution sees the same data again)
-    if kind in ("confluent",) and not any(cl in ("missing-execution", "stage-status", "workflow-status") for cl, _d in viol):
+    # early-firing joins included: the recovery drain is FIFO like the reference run, so which upstreams had finished when the
+    # join was planned is the same unless a crash lost the join's trigger (it then fires late and sees more)
+    if kind in ("confluent", "early-join") and not any(cl in ("missing-execution", "stage-status", "workflow-status") for cl, _d in viol):
         for k in ref["seen"]:
             a = {json.dumps(x, sort_keys=True) for x in ref["seen"][k]}
             b = {json.dumps(x, sort_keys=True) for x in got["seen"].get(k, [])}
@@ -180,6 +182,9 @@ def all_specs() -> dict[str, dict[str, Any]]:
     out["syn_after3"] = {"name": "syn_after3", "stages": [a, stage("p", ["a"], [ok(emit("k_p"))], syn={"before": [], "after": ["ok"] * 3, "parallel": True, "pre": False, "onfail": []}), z]}
     out["syn_onfail2"] = {"name": "syn_onfail2", "stages": [a, stage("p", ["a"], [{"b": "fail"}], syn={"before": ["ok"], "after": [], "parallel": False, "pre": False, "onfail": ["ok", "ok"]}), z]}
     out["syn_pre_fail"] = {"name": "syn_pre_fail", "stages": [a, stage("p", ["a"], [{"b": "fail"}], syn={"before": ["ok"], "after": ["ok"], "parallel": False, "pre": True}), z]}
+    out["firstof_slow"] = {"name": "firstof_slow", "stages": [
+        stage("a", [], [ok(emit("k_a"))]), stage("fast", ["a"], [ok(emit("k_f"))]), stage("slow", ["a"], [{"b": "poll", "k": 2, "emit": [emit("k_s")]}]),
+        stage("j", ["fast", "slow"], [ok(emit("k_j"))], join="DISC"), stage("z", ["j"], [ok()])]}
     out["syn_pre_ok"] = {"name": "syn_pre_ok", "stages": [a, stage("p", ["a"], [ok(emit("k_p"))], syn={"before": ["ok", "ok"], "after": ["ok", "ok"], "parallel": True, "pre": True}), z]}
     return out
 
@@ -217,7 +222,7 @@ def _dispatch(fn, a):  # noqa: ANN001
 def run(c: Campaign, jobs: int) -> None:
     quick = c.tier == "quick"
     names = [k for k in core_corpus() if k not in CORPUS_SKIP]
-    names += ["syn_after3", "syn_onfail2", "syn_pre_fail", "syn_pre_ok"]
+    names += ["syn_after3", "syn_onfail2", "syn_pre_fail", "syn_pre_ok", "firstof_slow"]
     args = [(shard_corpus, (c.prop, c.tier, c.seed, name, False)) for name in names]
     n_gen = 32 if quick else 480
     shards = max(1, jobs)
